@@ -3,6 +3,7 @@
 #[path = "/verif/harness/common/io.rs"]
 mod io;
 mod ibc;
+mod abci;
 mod ledger;
 mod oracle;
 mod validators;
